@@ -58,6 +58,13 @@ CHECKS = {
   text="For each of 12 valid transcripts (sync and non-sync literals, AUTHENTICATE exchange, IDLE, STARTTLS, implicit TLS, pipelining, long FETCH literal) every client->server byte offset x {EOF, reset} and every server->client offset x {write error} is enumerated (quick: all offsets of 5 transcripts, every 7th of the rest); after each cut the server must close its side, call Session.Close exactly once, stop Idle, and log no panic. Plus mutated/garbage inputs, literal-cap probes (4096 / APPEND limit) and deep-nesting families to 4*10^5 levels.",
   design_ref="DESIGN.md §3 C06",
   note="Backstops (40 s) are orders of magnitude above observed latencies; only literals are subject to the 4096-byte cap; stalls (peer silent but connected) are outside the property."),
+
+ "C07": dict(
+  category="exploration",
+  technique="runtime trace monitor: harness-owned MailboxTracker mirrored by a unique-id message list; client views reconstructed only from wire output of real server connections whose stub Poll delegates to SessionTracker; Decode/EncodeSeqNum probed for every number after every step; race detector on",
+  text="Every history of length <= L over a 13-operation alphabet (appends of +1/+2, expunges, flag updates with and without source, mailbox flags, polls with and without expunge permission on 2 sessions) on a 3-message mailbox, plus seeded random histories with 1..4 sessions created/closed at arbitrary points. Decides: emitted updates are exactly the expected per-session event prefix, in order, correctly numbered, no EXPUNGE when disallowed, Poll(true) makes the view equal the mailbox, and both translations agree with the mirror for every number.",
+  design_ref="DESIGN.md §3 C07",
+  note="Sequential histories (one poll at a time); DecodeSeqNum probed on 1..|V|, EncodeSeqNum on 1..|M|."),
 }
 
 NOT_YET = "check not built yet in this round (planned in DESIGN.md §3; runtime monitoring applies)"
